@@ -120,7 +120,9 @@ func (f *FibStrategyHashTable) insertEntryEnc(name enc.Name) *baseFibStrategyEnt
 
 	if _, ok := f.realTable[nameHash]; !ok {
 		rtEntry := new(baseFibStrategyEntry)
-		rtEntry.name = name
+		// The entry outlives the call and pruneTables recomputes the table keys
+		// from its name: keep a private copy, as the tree implementation does.
+		rtEntry.name = name.Clone()
 		f.realTable[nameHash] = rtEntry
 	}
 
@@ -356,7 +358,7 @@ func (f *FibStrategyHashTable) SetStrategyEnc(name enc.Name, strategy enc.Name) 
 	defer f.fibStrategyRWMutex.Unlock()
 
 	realEntry := f.insertEntryEnc(name)
-	realEntry.strategy = strategy
+	realEntry.strategy = strategy.Clone()
 }
 
 // UnsetStrategy unsets the strategy for the specified prefix.
